@@ -443,6 +443,12 @@ def enc_version(cid, cfg_cid) -> int:
     return cid * 8 + key
 
 
+def absent_version(cfg_cid) -> int:
+    """the 'version' under which the model asks the rules about a path with no file behind it (Model/OrchHist.v absent_ver):
+    the configuration key alone (< 8, never the version of an existing file)"""
+    return 0 if cfg_cid is None else cfg_cid + 1
+
+
 def dec_version(v: int):
     return v // 8, (None if v % 8 == 0 else v % 8 - 1)
 
